@@ -645,11 +645,16 @@ def _eng_cases(rng, tier):
         for j in range(rng.below(5)):
             pos = rng.range(2, len(script)) if rng.chance(1, 3) else len(script)
             script.insert(pos, ("cmd", f'STORE u FOR c{rng.below(nctx)} PAYLOAD {{"k": {rng.below(10)}, "g": "g{rng.below(3)}"}}'))
+        # string values that need escaping when a partial state travels between shard flows and the coordinator
+        # (line break, tab, quote, backslash, control and non-ASCII characters), for COUNT UNIQUE over a string field
+        for wv in [rng.choice(['line\\nbreak', 'tab\\there', 'quo\\"te', 'back\\\\slash', 'bell\\u0007', 'caf\\u00e9', 'g0']) for _ in range(rng.range(0, 4))]:
+            pos = rng.range(2, len(script))
+            script.insert(pos, ("cmd", f'STORE t FOR c{rng.below(nctx)} PAYLOAD {{"k": {rng.below(10)}, "g": "{wv}"}}'))
         script.append(("quiesce",))
         qs = []
         for _ in range(5):
             restr = rng.choice(["", "", f" FOR c{rng.below(nctx)}", f" WHERE k >= {rng.below(6)}"])
-            agg = rng.choice(["COUNT", "TOTAL k", "AVG k", "MIN k", "MAX k", "COUNT UNIQUE k", "COUNT BY g", "COUNT, TOTAL k BY g"])
+            agg = rng.choice(["COUNT", "TOTAL k", "AVG k", "MIN k", "MAX k", "COUNT UNIQUE k", "COUNT UNIQUE g", "COUNT UNIQUE g", "COUNT BY g", "COUNT, TOTAL k BY g"])
             script.append(("cmd", f"QUERY t{restr}"))
             script.append(("cmd", f"QUERY t{restr} {agg}"))
             qs.append((restr, agg))
@@ -736,6 +741,13 @@ def _eng_judge(c, impl):
             got = rows[0].get("avg_k") if rows else None
             if ks and (got is None or abs(got - sum(ks) / len(ks)) > 1e-9):
                 return bad(f"AVG {got} vs {sum(ks) / len(ks)}", "AggregateCountsMoreThanSelected")
+        elif agg == "COUNT UNIQUE g":
+            if not rows and ks:
+                return bad("COUNT UNIQUE g returned no row at all", None)
+            got = rows[0].get("count_unique_g") if rows else 0
+            want = len(set(x.get("g") for x in sel["rows"]))
+            if got != want:
+                return bad(f"COUNT UNIQUE g {got} vs {want} distinct values in the selection", "AggregateCountsMoreThanSelected" if (got or 0) > want else None)
         elif agg == "COUNT UNIQUE k":
             got = rows[0].get("count_unique_k") if rows else 0
             if got != len(set(ks)):
